@@ -223,7 +223,7 @@ def display(v):
 
 
 # ---- TCK typed values -------------------------------------------------------------------------------------------------
-# abstract: ["nil"] | ["simple", type, text] | ["list", [v...]] | ["ctx", [[name, v]...]] | ["nilc"] (a component sent with isNil=true)
+# abstract: ["nil"] | ["nill"] (nil list) | ["nilt"] (nil simple value with a type) | ["simple", type, text] | ["list", [v...]] | ["ctx", [[name, v]...]] | ["nilc"] (a component sent with isNil=true)
 
 NUMERIC_TYPES = ("xsd:decimal", "xsd:integer", "xsd:double")
 
@@ -232,6 +232,10 @@ def to_dto(v):
     t = v[0]
     if t == "nil":
         return {"simple": {"isNil": True}}
+    if t == "nill":
+        return {"list": {"items": [], "isNil": True}}
+    if t == "nilt":
+        return {"simple": {"type": "xsd:string", "isNil": True}}
     if t == "simple":
         return {"simple": {"type": v[1], "text": v[2], "isNil": False}}
     if t == "list":
@@ -251,7 +255,7 @@ def norm_sent(v):
     """the value a sent typed value denotes: ("null",) | ("string", s) | ("number", Decimal) | ("boolean", b) |
     (temporal-type, text) | ("list", [...]) | ("context", {name: v})"""
     t = v[0]
-    if t in ("nil", "nilc"):
+    if t in ("nil", "nilc", "nill", "nilt"):
         return ("null",)
     if t == "simple":
         return norm_simple(v[1], v[2])
